@@ -798,29 +798,60 @@ theorem glwe_mul_plain_old_formula_counterexample :
     tbGlweMulPlainOld .ntt120 1024 ⟨1, 1, 17⟩ ⟨1, 3, 17⟩ 3 < req (treeGlweMulPlain .ntt120 1024 0 ⟨1, 1, 17⟩ ⟨1, 3, 17⟩ 3 3 3) := by
   decide
 
-/-- `glwe_tensor_apply` / `glwe_tensor_apply_add_assign` (convolution queries with the accumulator size, docs/fixes/13) -/
-theorem glwe_tensor_apply_ok (off : Nat) (res a : G) (bSize ea eb : Nat) (hn : n % 8 = 0) (hea : ea ≤ a.size) (heb : eb ≤ bSize)
-    (hb : 0 < a.b2k) (hoff : cnvHi off a.b2k ≤ ea + eb) (w : Arena) (h : tbGlweTensorApply be n res a bSize ≤ w.available) :
-    (run (treeGlweTensorApply be n off res a bSize ea eb) w).isOk = true :=
-  (tensorApply_facts be n off res a bSize ea eb hn hea heb hb hoff).ok w h
+/-- the pairwise query as the hal delegate answers it (result size = the caller's `cnv_offset`, `cnvPairwiseQuery`) covers what
+`cnv_pairwise_apply_dft` takes on NTT120 always, on FFT64 from `N ≥ 8·(a + b)` on (there the 24·N normalisation scratch dominates) -/
+theorem pairwise_query_covered (rs D q a b : Nat) :
+    PairwiseCovered .ntt120 n rs D q a b ∧ (8 * (a + b) ≤ n → PairwiseCovered .fft64 n rs D q a b) :=
+  ⟨pairwiseCovered_ntt120 n rs D q a b, pairwiseCovered_fft64 n rs D q a b⟩
 
-example : (run (treeGlweTensorApply .fft64 8 19 ⟨1, 5, 19⟩ ⟨1, 3, 19⟩ 4 3 4) ⟨4096, tbGlweTensorApply .fft64 8 ⟨1, 5, 19⟩ ⟨1, 3, 19⟩ 4⟩).isOk = true := by decide
+example : PairwiseCovered .fft64 64 5 5 3 3 4 ∧ ¬ PairwiseCovered .fft64 8 5 5 3 3 4 := by
+  unfold PairwiseCovered; decide
+
+/-- `glwe_tensor_apply` / `glwe_tensor_apply_add_assign`, where the pairwise query is covered (`pairwise_query_covered`) -/
+theorem glwe_tensor_apply_ok (off : Nat) (res a : G) (bSize ea eb : Nat) (hn : n % 8 = 0) (hea : ea ≤ a.size) (heb : eb ≤ bSize)
+    (hb : 0 < a.b2k) (hoff : cnvHi off a.b2k ≤ ea + eb)
+    (hpw : PairwiseCovered be n res.size (limbBoundWorst (a.size + bSize) res.size res.b2k a.b2k) (min a.size bSize) a.size bSize)
+    (w : Arena) (h : tbGlweTensorApply be n res a bSize ≤ w.available) :
+    (run (treeGlweTensorApply be n off res a bSize ea eb) w).isOk = true :=
+  (tensorApply_facts be n off res a bSize ea eb hn hea heb hb hoff hpw).ok w h
+
+example : (run (treeGlweTensorApply .fft64 64 19 ⟨1, 5, 19⟩ ⟨1, 3, 19⟩ 4 3 4) ⟨4096, tbGlweTensorApply .fft64 64 ⟨1, 5, 19⟩ ⟨1, 3, 19⟩ 4⟩).isOk = true ∧
+    (run (treeGlweTensorApply .ntt120 8 19 ⟨1, 5, 19⟩ ⟨1, 3, 19⟩ 4 3 4) ⟨4096, tbGlweTensorApply .ntt120 8 ⟨1, 5, 19⟩ ⟨1, 3, 19⟩ 4⟩).isOk = true := by decide
 
 /-- the hypothesis `cnv_offset_hi ≤ ea + eb` is a real (unchecked) precondition of the Rust body: beyond it
 `a_size + b_size − cnv_offset_hi` wraps and the accumulator is sized by the result alone -/
 example : (run (treeGlweTensorApply .ntt120 16 57 ⟨1, 6, 17⟩ ⟨1, 1, 13⟩ 1 1 1) ⟨4096, tbGlweTensorApply .ntt120 16 ⟨1, 6, 17⟩ ⟨1, 1, 13⟩ 1⟩).isOk = false := by
   decide
 
-/- FULL STATEMENT (false before docs/fixes/13, tiny rings only: the normalisation scratch dominates from N = 32 on) -/
-theorem glwe_tensor_apply_old_formula_counterexample :
-    (run (treeGlweTensorApply .fft64 8 19 ⟨1, 5, 19⟩ ⟨1, 3, 19⟩ 4 3 4) ⟨4096, tbGlweTensorApplyOld .fft64 8 ⟨1, 5, 19⟩ ⟨1, 3, 19⟩ 4⟩).isOk = false := by
+/- FULL STATEMENT (`glwe_tensor_apply_ok` without `hpw`): false.  `Module::cnv_pairwise_apply_dft_tmp_bytes` forwards its first two
+   arguments swapped, so the formula reserves the pairwise buffer for `min(a, b)` result limbs instead of the accumulator's; for
+   FFT64 and N ∈ {8, 16} nothing else in the maximum covers it.  Known finding
+   `poulpy-hal/src/delegates/convolution.rs:cnv_pairwise_apply_dft_tmp_bytes:first-two-arguments-forwarded-swapped`
+   (not repairable without editing the pinned suite, whose own call compensates for the swap); witness reproduced on the real code. -/
+theorem glwe_tensor_apply_pairwise_delegate_counterexample :
+    (run (treeGlweTensorApply .fft64 8 19 ⟨1, 5, 19⟩ ⟨1, 3, 19⟩ 4 3 4) ⟨4096, tbGlweTensorApply .fft64 8 ⟨1, 5, 19⟩ ⟨1, 3, 19⟩ 4⟩).isOk = false ∧
+    (run (treeGlweTensorSquare .fft64 8 0 ⟨1, 6, 19⟩ ⟨1, 3, 19⟩ 3) ⟨4096, tbGlweTensorSquare .fft64 8 ⟨1, 6, 19⟩ ⟨1, 3, 19⟩⟩).isOk = false := by
   decide
 
-/-- `glwe_tensor_square_apply` -/
+/-- docs/fixes/13 (`cnv_apply_dft_tmp_bytes` called in declared order) does not change the value of the tensor formula while the
+pairwise delegate swaps: the pairwise term, answered for `min(a, b)` result limbs, already dominates the diagonal query for any
+result size (FFT64: `64·(min(a,b) + a + b) ≥ 64·(a + b − 1)`; NTT120: no dependence on the result size) -/
+theorem glwe_tensor_apply_formula_value_unchanged (res a : G) (bSize : Nat) :
+    tbGlweTensorApply be n res a bSize = tbGlweTensorApplyOld be n res a bSize := by
+  unfold tbGlweTensorApply tbGlweTensorApplyOld cnvPairwiseQuery
+  cases be
+  · simp only [cnvApplyTmp, cnvPairwiseTmp]; omega
+  · simp only [cnvApplyTmp, cnvPairwiseTmp]
+
+example : tbGlweTensorApply .fft64 8 ⟨1, 5, 19⟩ ⟨1, 3, 19⟩ 4 = 1920 ∧ tbGlweTensorApplyOld .fft64 8 ⟨1, 5, 19⟩ ⟨1, 3, 19⟩ 4 = 1920 := by decide
+
+/-- `glwe_tensor_square_apply`, where the pairwise query is covered -/
 theorem glwe_tensor_square_apply_ok (off : Nat) (res a : G) (ea : Nat) (hn : n % 8 = 0) (hea : ea ≤ a.size) (hb : 0 < a.b2k)
-    (hoff : cnvHi off a.b2k ≤ 2 * ea) (w : Arena) (h : tbGlweTensorSquare be n res a ≤ w.available) :
+    (hoff : cnvHi off a.b2k ≤ 2 * ea)
+    (hpw : PairwiseCovered be n 0 (limbBoundWorst (2 * a.size) res.size res.b2k a.b2k) a.size a.size a.size)
+    (w : Arena) (h : tbGlweTensorSquare be n res a ≤ w.available) :
     (run (treeGlweTensorSquare be n off res a ea) w).isOk = true :=
-  (tensorSquare_facts be n off res a ea hn hea hb hoff).ok w h
+  (tensorSquare_facts be n off res a ea hn hea hb hoff hpw).ok w h
 
 example : (run (treeGlweTensorSquare .ntt120 8 40 ⟨2, 3, 17⟩ ⟨2, 3, 17⟩ 3) ⟨4096, tbGlweTensorSquare .ntt120 8 ⟨2, 3, 17⟩ ⟨2, 3, 17⟩⟩).isOk = true := by decide
 
@@ -955,12 +986,14 @@ example : (run (treeBdd2w1w .fft64 8 2 4 3 2 2 ⟨1, 2, 17⟩ ⟨1, 1, 3, 17, 2,
 /-- the CKKS products: `ckks_mul`, `ckks_square`, `ckks_mul_pt_vec_rnx` (`_znx` is `glwe_mul_plain`), `ckks_mul_pt_const` -/
 theorem ckks_products_ok (off ea eb : Nat) (ct a : G) (t : K) (ptSize : Nat) (hn : n % 8 = 0)
     (hea : ea ≤ ct.size) (heb : eb ≤ ct.size) (hb : 0 < ct.b2k) (hea' : ea ≤ a.size)
-    (hoff : cnvHi off ct.b2k ≤ ea + eb) (hoff2 : cnvHi off ct.b2k ≤ 2 * ea) (hoff3 : cnvHi off a.b2k ≤ ea + ptSize) (w : Arena) :
+    (hoff : cnvHi off ct.b2k ≤ ea + eb) (hoff2 : cnvHi off ct.b2k ≤ 2 * ea) (hoff3 : cnvHi off a.b2k ≤ ea + ptSize)
+    (hpw : PairwiseCovered be n ct.size (limbBoundWorst (ct.size + ct.size) ct.size ct.b2k ct.b2k) (min ct.size ct.size) ct.size ct.size)
+    (hpws : PairwiseCovered be n 0 (limbBoundWorst (2 * ct.size) ct.size ct.b2k ct.b2k) ct.size ct.size ct.size) (w : Arena) :
     (tbCkksMul be n ct t ≤ w.available → (run (treeCkksMul be n off ea eb ct t) w).isOk = true) ∧
     (tbCkksSquare be n ct t ≤ w.available → (run (treeCkksSquare be n off ea ct t) w).isOk = true) ∧
     (tbCkksMulPtVecRnx be n ct a ptSize ≤ w.available → (run (treeCkksMulPtVecRnx be n off ct a ptSize ea) w).isOk = true) ∧
     (tbCkksMulPtConst be n ct a ptSize ≤ w.available → (run (treeCkksMulPtConst be n off ct a ptSize) w).isOk = true) :=
-  ⟨(ckksMul_facts be n off ea eb ct t hn hea heb hb hoff).ok w, (ckksSquare_facts be n off ea ct t hn hea hb hoff2).ok w,
+  ⟨(ckksMul_facts be n off ea eb ct t hn hea heb hb hoff hpw).ok w, (ckksSquare_facts be n off ea ct t hn hea hb hoff2 hpws).ok w,
    (ckksMulPtVecRnx_facts be n off ct a ptSize ea hn hea' hoff3).ok w, (ckksMulPtConst_facts be n off ct a ptSize hn).ok w⟩
 
 example : (run (treeCkksMul .fft64 8 57 3 3 ⟨1, 3, 19⟩ ⟨1, 1, 3, 19, 3, 1⟩) ⟨4096, tbCkksMul .fft64 8 ⟨1, 3, 19⟩ ⟨1, 1, 3, 19, 3, 1⟩⟩).isOk = true := by decide
@@ -977,11 +1010,12 @@ example : (run (treeCkksComposite 8 ⟨1, 3, 19⟩ (treeCkksMul .fft64 8 57 3 3 
 /-- `ckks_mul_many` (`levels ≤ ceil_log2(cnt)` levels of halving) and `ckks_dot_product_ct` (fast path) -/
 theorem ckks_many_ok (off ea eb cnt levels : Nat) (ct : G) (t : K) (hn : n % 8 = 0)
     (hea : ea ≤ ct.size) (heb : eb ≤ ct.size) (hb : 0 < ct.b2k) (hoff : cnvHi off ct.b2k ≤ ea + eb)
+    (hpw : PairwiseCovered be n ct.size (limbBoundWorst (ct.size + ct.size) ct.size ct.b2k ct.b2k) (min ct.size ct.size) ct.size ct.size)
     (hl : 2 < cnt ∧ levels ≤ ceilLog2 cnt ∨ levels = 0) (w : Arena) :
     (tbCkksMulMany be n cnt ct t ≤ w.available → (run (treeCkksMulMany be n off ea eb ct t levels) w).isOk = true) ∧
     (tbCkksDotProductCt be n cnt ct t ≤ w.available → (run (treeCkksDotProductCt be n off ea eb cnt ct t) w).isOk = true) := by
-  refine ⟨fun h => ?_, (ckksDotProductCt_facts be n off ea eb cnt ct t hn hea heb hb hoff).ok w⟩
-  refine ((ckksMulMany_facts be n off ea eb ct t hn hea heb hb hoff levels).mono ?_).ok w h
+  refine ⟨fun h => ?_, (ckksDotProductCt_facts be n off ea eb cnt ct t hn hea heb hb hoff hpw).ok w⟩
+  refine ((ckksMulMany_facts be n off ea eb ct t hn hea heb hb hoff hpw levels).mono ?_).ok w h
   unfold tbCkksMulMany
   rcases hl with ⟨h2, hlv⟩ | rfl
   · rw [if_neg (by omega)]
